@@ -7,6 +7,7 @@ private copy of /verif redirected to that worktree. Every check must stay silent
 /verif/refactors/<PROP>-<N>/ (patch.diff, report.md, meta.json)."""
 import concurrent.futures, json, os, shutil, subprocess, sys, time
 V = os.path.dirname(os.path.dirname(os.path.abspath(__file__)))
+SRC = "/tmp/verif-snap" if os.path.isdir("/tmp/verif-snap") and "--live" not in sys.argv else V  # a clean snapshot of the committed tree while people edit /verif
 ENV = dict(os.environ, GOFLAGS="-mod=mod", GOPROXY="off", GOSUMDB="off", GOTOOLCHAIN="local")
 
 
@@ -37,7 +38,7 @@ def main():
     vc = f"/tmp/vref-{prop}-{n}"
     shutil.rmtree(vc, ignore_errors=True)
     sh(["rsync", "-a", "--exclude", ".git", "--exclude", "replays", "--exclude", "seeded", "--exclude", "refactors", "--exclude", "design-spikes",
-        "--exclude", ".work/gocache", V + "/", vc + "/"])
+        "--exclude", ".work/gocache", SRC + "/", vc + "/"])
     gm = os.path.join(vc, "harness", "go.mod")
     txt = open(gm).read().replace("=> /repo", f"=> {wt}")
     open(gm, "w").write(txt)
